@@ -165,6 +165,9 @@ func (w *World) ServeSolo(q *Req) {
 
 // CountFaults adds the faults that actually fired in q to res.
 func CountFaults(q *Req, res *eng.Result) (any bool) {
+	if q.Staged && q.Body != "" {
+		res.Probes["requests_with_staged_body"]++
+	}
 	for _, e := range q.Events {
 		switch e.K {
 		case EvCancel:
